@@ -42,6 +42,8 @@ type Contract struct {
 	Params   []string          // optional explicit parameter names (stubs)
 	Trusted  bool
 	External bool // from /verif/stubs: assumed contract of code outside the repository
+	GhostParams [][2]string // arbitrary-but-fixed ghost parameters (name, sort): proved for a fresh constant, assumed universally
+	GhostSets   []*Clause   // ghost assignments performed when the function returns: "name = expr"
 }
 
 type GhostFunc struct {
@@ -199,6 +201,18 @@ func (S *Specs) loadFile(path, pkg string, goFile bool) error {
 					cur.Flags[w] = "1"
 				}
 			}
+		case "ghostset":
+			if cur == nil {
+				return fmt.Errorf("%s: ghostset outside func", src)
+			}
+			cl := &Clause{Kind: "ghostset", Tags: tags, Text: rest, Src: src}
+			cur.GhostSets = append(cur.GhostSets, cl)
+			last, lastAxiom = cl, nil
+		case "ghostparam":
+			if cur == nil || len(words) < 3 {
+				return fmt.Errorf("%s: ghostparam name sort (inside func)", src)
+			}
+			cur.GhostParams = append(cur.GhostParams, [2]string{words[1], strings.Join(words[2:], " ")})
 		case "ghost":
 			// ghost func name(sort, sort) sort   |   ghost var name sort
 			cur, curLemma, last, lastAxiom, lastDef = nil, nil, nil, nil, nil
